@@ -1,0 +1,32 @@
+//go:build verif
+// +build verif
+
+package destination
+
+import "sync"
+
+var (
+	verifLogMu sync.Mutex
+	verifLogs  = map[*Destination][]byte{}
+)
+
+// verifPoint records which branch of relay() ran, one byte per event:
+// i In received, u unspool received, then the outcome e (to conn.In) s (slow_conn drop) p (to spool.InRT)
+// q (slow_spool drop) n (conn_down_no_spool drop); R/C conn found dead (redo collected / cleared),
+// U new conn, t/T tick (with/without reconnect), +/- conn update started/finished, S signal, F flush, X shutdown.
+func (dest *Destination) verifPoint(code byte) {
+	verifLogMu.Lock()
+	verifLogs[dest] = append(verifLogs[dest], code)
+	verifLogMu.Unlock()
+}
+
+// VerifLog returns (and optionally forgets) the event log of this destination's relay loop.
+func (dest *Destination) VerifLog(forget bool) []byte {
+	verifLogMu.Lock()
+	defer verifLogMu.Unlock()
+	l := append([]byte(nil), verifLogs[dest]...)
+	if forget {
+		delete(verifLogs, dest)
+	}
+	return l
+}
